@@ -116,7 +116,7 @@ theorem reject_at_first_bad (r0 : Rd) (s : Src) (cx : Ctx) (f0 : WFrame) (fs : L
     (htail : Tail true r0.skipCheck (stSet r0.state stFragmented) r0.maxFrame fs)
     (hbw : hbad.WF) (hrej : RefusedWith r0.skipCheck (stSet r0.state stFragmented) r0.maxFrame hbad err)
     (hb : s.bytes = encodeFs (f0 :: fs) ++ (rfcEncode hbad ++ junk)) (hwf : Bytes.WF s.bytes) (htame : Src.Tame s) :
-    ∃ r1 s1, r0.nextFrame s cx none = (some f0.h, none, r1, s1, cx) ∧
+    ∃ r1 s1, r0.nextFrame s cx none = (some f0.h, none, r1, s1, cx) ∧ r1.hasFrame = true ∧
       ((∃ out e r' s', reads r1 s1 cx ks = some (out, e, r', s', cx)
           ∧ (∃ more, dataPlain (f0 :: fs) = out ++ more)
           ∧ (e = none ∨ e = some .eof))
@@ -140,7 +140,7 @@ theorem reject_at_first_bad (r0 : Rd) (s : Src) (cx : Ctx) (f0 : WFrame) (fs : L
     refine Sync.mid _ s1 f0.wire fs hc ?_ (by simp [enter, hfin0, st]) htail
     exact ⟨by simp [enter], by simp [enter, hu8], hb1, by simp [enter, hok0.len],
         by rw [hb1]; exact hwt, by simp [enter]; exact hok0.mwf, ht1⟩
-  refine ⟨enter r0 f0.h, s1, hnext, ?_⟩
+  refine ⟨enter r0 f0.h, s1, hnext, rfl, ?_⟩
   rcases reads_sync true r0.skipCheck st r0.maxFrame rest ks hpos _ s1 cx _ hsync with
     ⟨out, e, r', s', hrd, hcase⟩ | ⟨ks1, k2, ks2, out1, r1, s2, hks, hrd1, hrem, hend⟩
   · left
